@@ -512,8 +512,9 @@ func (ps *Pieces) Del() {
 	verifYield("Del.beforeLock", -1)
 	ps.mu.Lock()
 	defer ps.mu.Unlock()
+	// set this first, since del may temporarily release the lock
+	ps.deleted = true
 	for i := uint32(0); i < uint32(len(ps.pieces)); i++ {
 		ps.del(i, true)
 	}
-	ps.deleted = true
 }
